@@ -6,7 +6,7 @@ REAL_COMMON = ["all TASMANIAN code compiled from /repo's working tree", "libstdc
 CHECKS = {
     "C15": {
         "id": "C15", "engine": "envsim", "flavour": "asan", "binary": "build/asan/c15", "level": "exploration",
-        "tiers": {"quick": {"runs": 400000, "batch": 2500, "wall_cap": 300}, "thorough": {"runs": 12000000, "batch": 5000, "wall_cap": 1500}},
+        "tiers": {"quick": {"runs": 1200000, "batch": 2500, "wall_cap": 300}, "thorough": {"runs": 12000000, "batch": 5000, "wall_cap": 1500}},
         "rule": "one case = one seeded environment (chains, dims, form, pdf kind, domain kind, update rule, differential weight, "
                 "burn/collect lengths, split point, endpoint-draw injections attached to draw kinds); executed as a single run and as "
                 "two consecutive runs; distinct = distinct (configuration shape, injection list); non-trivial = at least one iteration",
@@ -20,7 +20,7 @@ CHECKS = {
 
 CHECKS["C20"] = {
     "id": "C20", "engine": "envsim", "flavour": "asan", "binary": "build/asan/c20", "level": "exploration",
-    "tiers": {"quick": {"runs": 400000, "batch": 2500, "wall_cap": 300}, "thorough": {"runs": 12000000, "batch": 5000, "wall_cap": 1500}},
+    "tiers": {"quick": {"runs": 1500000, "batch": 2500, "wall_cap": 300}, "thorough": {"runs": 12000000, "batch": 5000, "wall_cap": 1500}},
     "rule": "one case = one seeded environment (particles, dims, objective kind, domain kind, coefficients, initialisation, endpoint-draw injections) "
             "and a plan of 1-4 ParticleSwarm calls separated by state edits (none, clearCache, clearBestParticles, both, manual positions/bests + clearCache, "
             "manual velocities); calls separated by 'none' are also executed merged (n then m vs n+m); distinct = distinct (configuration shape, call/edit plan, injections)",
@@ -34,7 +34,7 @@ CHECKS["C20"] = {
 
 CHECKS["C06"] = {
     "id": "C06", "engine": "persist", "flavour": "asan", "binary": "build/asan/c06", "level": "exploration",
-    "tiers": {"quick": {"runs": 100000, "batch": 250, "wall_cap": 300}, "thorough": {"runs": 3000000, "batch": 500, "wall_cap": 2400}},
+    "tiers": {"quick": {"runs": 250000, "batch": 250, "wall_cap": 300}, "thorough": {"runs": 3000000, "batch": 500, "wall_cap": 2400}},
     "rule": "one case = a seeded grid configuration (family, rule, dims, outputs, depth, type, weights, limits, transforms) + a seeded history of 0-8 operations "
             "(load, overwriting reload, surplus/anisotropic refinement, update, merge, clear, setHierarchicalCoefficients, begin/candidates+loadConstructedPoints/finish, "
             "copy, transforms, removePoints) + format x entry point + medium faults + 1-4 continuation operations; distinct = distinct (grid state shape incl. point set, format, entry)",
@@ -56,7 +56,7 @@ CHECKS["C06"].update({
 
 CHECKS["C09"] = {
     "id": "C09", "engine": "deliver", "flavour": "asan", "binary": "build/asan/c09", "level": "exploration",
-    "tiers": {"quick": {"runs": 160000, "batch": 1000, "wall_cap": 420}, "thorough": {"runs": 4000000, "batch": 2000, "wall_cap": 2400}},
+    "tiers": {"quick": {"runs": 400000, "batch": 1000, "wall_cap": 420}, "thorough": {"runs": 4000000, "batch": 2000, "wall_cap": 2400}},
     "rule": "one case = a seeded grid configuration (Global nested rules, Sequence, LocalPolynomial all rules/orders, Wavelet, Fourier; 1-3 dims; 1-2 outputs; limits; domain transform), "
             "a target set (points of a second grid of the same family with other depth/type/weights, united with the start grid), start fresh or loaded, "
             "and a delivery schedule: permutation (shuffle/sorted/reverse), batch partition, and interleaved candidate queries, write/read and copies of the half-built grid; "
@@ -75,7 +75,7 @@ CHECKS["C09"] = {
 
 CHECKS["C14"] = {
     "id": "C14", "engine": "misuse", "flavour": "asan", "binary": "build/asan/c14", "level": "exploration",
-    "tiers": {"quick": {"runs": 300000, "batch": 1500, "wall_cap": 420}, "thorough": {"runs": 6000000, "batch": 3000, "wall_cap": 2400}},
+    "tiers": {"quick": {"runs": 600000, "batch": 1500, "wall_cap": 420}, "thorough": {"runs": 6000000, "batch": 3000, "wall_cap": 2400}},
     "rule": "one case = a seeded grid (or the empty object) + a seeded valid history (as in C06) in which documented misuses are injected at seeded positions on G only; "
             "each misuse is drawn from the table of throws-clauses applicable in the current state (sizes, ranges, wrong family, empty grid, out-of-order calls, no-GPU calls, "
             "unreadable / non-Tasmanian files through the simulated file system); distinct = distinct (sequence of (clause, family, state class), final state shape); non-trivial = at least one misuse issued",
@@ -139,7 +139,7 @@ CHECKS["C18"] = {
 
 CHECKS["C12"] = {
     "id": "C12", "engine": "sched+race", "flavour": "thr", "binary": "build/thr/c12", "level": "exploration",
-    "tiers": {"quick": {"runs": 60000, "batch": 250, "wall_cap": 300}, "thorough": {"runs": 1500000, "batch": 500, "wall_cap": 2400}},
+    "tiers": {"quick": {"runs": 200000, "batch": 250, "wall_cap": 300}, "thorough": {"runs": 1500000, "batch": 500, "wall_cap": 2400}},
     "rule": "one case = a seeded grid (all five families; wavelets over-sampled because they hold the only mutable CPU-side cache; 0-2 outputs; fresh, loaded, refined, merged, constructing, coefficient-set states via a seeded history; "
             "optionally written and read back first) shared as const reference by 2-4 caller tasks that each issue 1-3 const calls from a menu of 25 (evaluate, evaluateBatch double/float, interpolation / quadrature / "
             "differentiation weights, integrate, differentiate, dense and sparse hierarchical functions, support, integrals, coefficients, points, values, polynomial space, anisotropic coefficients, write binary/ASCII, "
@@ -164,7 +164,7 @@ CHECKS["C12"] = {
 
 CHECKS["C13"] = {
     "id": "C13", "engine": "simgomp+sched+race", "flavour": "omp", "binary": "build/omp/c13", "level": "exploration",
-    "tiers": {"quick": {"runs": 20000, "batch": 100, "wall_cap": 300}, "thorough": {"runs": 600000, "batch": 200, "wall_cap": 2400}},
+    "tiers": {"quick": {"runs": 40000, "batch": 100, "wall_cap": 300}, "thorough": {"runs": 600000, "batch": 200, "wall_cap": 2400}},
     "rule": "one case = a seeded grid configuration (all five families and all rule kinds incl. optimised sequences and custom tables, 1-3 dims, 0-2 outputs, transforms, limits) + a scripted history of 0-7 operations "
             "(load, refinement by all strategies, update, merge, clear, coefficients, dynamic construction, copies, transforms) with an observation after every step + extra parallel paths (sparse/dense hierarchical functions, "
             "anisotropic coefficients, polynomial space, weights) + optionally a ParticleSwarm run; executed once by the serial reference build and once by the OpenMP build under the simulated libgomp with a seeded team size "
